@@ -33,8 +33,8 @@ ASSUMPTIONS = ['the remote driver passes the client descriptor like Acceptor._wo
 _F: Dict[Any, Any] = {}
 
 
-def flags_for(mode: str, unix: bool = False, events: bool = False) -> Any:
-    key = (mode, unix, events, os.getpid())
+def flags_for(mode: str, unix: bool = False, events: bool = False, tls: bool = False) -> Any:
+    key = (mode, unix, events, tls, os.getpid())
     if key not in _F:
         from vf.props import c04, c07
         argv = {'local': ['--threadless'], 'remote': ['--threadless', '--local-executor', '0'], 'threaded': ['--threaded']}[mode]
@@ -44,6 +44,10 @@ def flags_for(mode: str, unix: bool = False, events: bool = False) -> Any:
             argv += ['--unix-socket-path', os.path.join(c07.static_dir(), 'listener.sock')]
         if events:
             argv += ['--enable-events']
+        if tls:
+            from vf.props import c10
+            k_, c_ = c10.tls_files()
+            argv += ['--key-file', k_, '--cert-file', c_]
         argv += ['--enable-web-server', '--enable-static-server', '--static-server-dir', c07.static_dir(), '--enable-reverse-proxy']
         _F[key] = K.make_flags(argv, plugins=[c07.route_plugin(), c04._reverse_plugin()])
     return _F[key]
@@ -51,6 +55,11 @@ def flags_for(mode: str, unix: bool = False, events: bool = False) -> Any:
 
 def client_for(c: Dict[str, Any]) -> K.Peer:
     role = c['role']
+    if role == 'failed-setup':
+        # the listener speaks TLS, this client does not: setting the work up fails in every mode, and the client must be let go
+        p = K.Peer('client', out=c['data'], script=[['send', len(c['data'])]])
+        p.send_before_accept = True     # type: ignore[attr-defined]
+        return p
     if role == 'bytes':
         data = c['data']
         return K.Peer('client', out=data, script=[['send', max(1, len(data) // 2)], ['send', len(data)]])
@@ -80,7 +89,7 @@ def client_for(c: Dict[str, Any]) -> K.Peer:
 
 def run_mode(c: Dict[str, Any], mode: str) -> Dict[str, Any]:
     listener = c.get('listener', 'tcp')
-    w = K.World(flags_for(mode, listener != 'tcp', bool(c.get('events'))), max_iters=60000, settle=6)
+    w = K.World(flags_for(mode, listener != 'tcp', bool(c.get('events')), c['role'] == 'failed-setup'), max_iters=60000, settle=6)
     client = client_for(c)
     if listener == 'unix':
         w.add_client(client, addr='')       # accept() on a unix socket reports an empty peer address
@@ -170,11 +179,16 @@ def replay(case: Dict[str, Any]) -> List[Dict[str, Any]]:
 
 @st.composite
 def cases(draw: Any) -> Dict[str, Any]:
-    role = draw(st.sampled_from(['forward', 'forward', 'tunnel', 'web', 'reverse', 'bytes']))
+    role = draw(st.sampled_from(['forward', 'forward', 'tunnel', 'web', 'reverse', 'bytes', 'failed-setup']))
     c: Dict[str, Any] = {'role': role, 'schedule': draw(st.lists(st.integers(0, 3), max_size=30)),
                          'listener': draw(st.sampled_from(['tcp', 'tcp', 'tcp', 'unix', 'unix+tcp'])),
                          'events': draw(st.integers(0, 3)) == 0, 'obs_text': draw(st.integers(0, 3)) == 0}
     sizes = st.sampled_from([0, 1, 20, 300, 5000, 70000, 300000])
+    if role == 'failed-setup':
+        c['data'] = draw(st.sampled_from([b'GET / HTTP/1.1\r\nHost: localhost\r\n\r\n', b'\x16\x03\x01\x00\x05hello', b'\x00' * 40, b'CONNECT a:1 HTTP/1.1\r\n\r\n']))
+        c['ending'] = draw(st.sampled_from(['none', 'client_close']))
+        c['listener'] = 'tcp'
+        return c
     if role == 'bytes':
         ic = draw(c06.input_cases(draw(st.sampled_from(['random', 'mutated', 'mutated']))))
         c['data'] = ic['data'] if ic['what'] == 'random' else c06.mutate(G.render(ic['req']), ic['muts'])
